@@ -40,6 +40,25 @@ theorem dot_dispatch (sa sb : Shape) :
       cases h1 : isVector (a :: as) <;> cases h2 : isVector (b :: bs) <;> simp <;>
         by_cases ha : as.length = 1 <;> by_cases hb : bs.length = 1 <;> simp [ha, hb]
 
+/-- **Destinations of `Dot(vector, vector)`** (the former finding F55: this path ignored `WithReuse` /
+    `WithIncr`). The reuse tensor is accepted exactly when it has the operands' element type and holds exactly
+    one element — whatever its rank: `()`, `(1)`, `(1,1)`, … — and refused with an *error* otherwise; an
+    accepted tensor goes on to `handleReuse` / `handleIncr` with the expected shape `()`, as in the matrix
+    products (`dotCore`, case `.inner`). -/
+theorem dot_inner_reuse_check (opDt reuseDt : String) (sh : Shape) :
+    dotInnerReuseCheck opDt reuseDt sh =
+      if reuseDt ≠ opDt then .error (.err "dtypeMismatch reuse")
+      else if totalSize sh ≠ 1 then .error (.err "shapeMismatch reuse") else .ok () := by
+  unfold dotInnerReuseCheck
+  by_cases h1 : reuseDt = opDt <;> by_cases h2 : totalSize sh = 1 <;>
+    simp [h1, h2, throwErr, bind, Except.bind, pure, Except.pure]
+
+/-- non-vacuity: a rank-0 and a `(1,1)` tensor of the operands' type are accepted, a three-element tensor and a
+    tensor of another float type are refused. -/
+example : dotInnerReuseCheck "f64" "f64" [] = .ok () ∧ dotInnerReuseCheck "f64" "f64" [1, 1] = .ok () ∧
+    dotInnerReuseCheck "f64" "f64" [3] = .error (.err "shapeMismatch reuse") ∧
+    dotInnerReuseCheck "f64" "f32" [] = .error (.err "dtypeMismatch reuse") := ⟨rfl, rfl, rfl, rfl⟩
+
 /-- `MatMul` refuses anything but two rank-2 operands … -/
 theorem mm_refused_of_rank (ts os : Shape) (h : ts.length ≠ 2 ∨ os.length ≠ 2) :
     ∃ tag, mmCheck ts os = .error (.err tag) := by
